@@ -562,6 +562,7 @@ fn gaussian_gen(c: &mut Case, offset: bool) {
         let tp = tp;
         c.check("gaussian.predictor-trait=predict", tp == preds, &sg, || format!("api::Predictor::predict returned {:?}, the inherent predict {:?}", tp, preds));
     }
+    sequence_checks(c, "gaussian", &sg, &model, &qd, &preds, |m, q| m.predict(q));
     if !stats_valid {
         c.bucket("map:skipped(non-finite reported statistics)");
         return;
@@ -598,7 +599,7 @@ fn gaussian_offset(c: &mut Case) {
 // multinomial
 // ------------------------------------------------------------------------------------------------
 
-fn multinomial_t<T: RealNumber + serde::Serialize>(c: &mut Case) {
+fn multinomial_t<T: SNum>(c: &mut Case) {
     let wd = width::<T>();
     c.bucket(&format!("width:{}", wd));
     let lab = draw_labels(c, false, 1);
@@ -715,6 +716,7 @@ fn multinomial_t<T: RealNumber + serde::Serialize>(c: &mut Case) {
         let tp = fv(&tp);
         c.check("multinomial.predictor-trait=predict", tp == preds, &sg, || format!("api::Predictor::predict returned {:?}, the inherent predict {:?}", tp, preds));
     }
+    sequence_checks(c, "multinomial", &sg, &model, &qd, &preds, |m, q| m.predict(q));
     if !stats_valid {
         c.bucket("map:skipped(non-finite reported statistics)");
         return;
@@ -842,7 +844,7 @@ fn bin(v: f64, th: Option<f64>) -> f64 {
     }
 }
 
-fn bernoulli_run<T: RealNumber + serde::Serialize>(c: &mut Case, inp: BernInput, tag: f64) {
+fn bernoulli_run<T: SNum>(c: &mut Case, inp: BernInput, tag: f64) {
     let wd = width::<T>();
     let BernInput { lab, x, alpha, binarize, user_priors, qm, qkind, mode } = inp;
     let (k, d) = (lab.k(), x.c);
@@ -947,6 +949,7 @@ fn bernoulli_run<T: RealNumber + serde::Serialize>(c: &mut Case, inp: BernInput,
         let tp = fv(&tp);
         c.check("bernoulli.predictor-trait=predict", tp == preds, &sgb, || format!("api::Predictor::predict returned {:?}, the inherent predict {:?}", tp, preds));
     }
+    sequence_checks(c, "bernoulli", &sgb, &model, &qd, &preds, |m, q| m.predict(q));
     if !stats_valid {
         c.bucket("map:skipped(non-finite reported statistics)");
         return;
@@ -978,7 +981,7 @@ fn bernoulli_run<T: RealNumber + serde::Serialize>(c: &mut Case, inp: BernInput,
     check_map(c, "bernoulli", &wdq, &rep.classes, &qkind, &scores, &preds, prior_argmax(&rep.priors));
 }
 
-fn bernoulli_t<T: RealNumber + serde::Serialize>(c: &mut Case) {
+fn bernoulli_t<T: SNum>(c: &mut Case) {
     c.bucket(&format!("width:{}", width::<T>()));
     let inp = bernoulli_draw::<T>(c);
     bernoulli_run::<T>(c, inp, if width::<T>() == "f32" { 3.5 } else { 3.0 });
@@ -1008,7 +1011,7 @@ fn bernoulli_enum(c: &mut Case) {
 // categorical
 // ------------------------------------------------------------------------------------------------
 
-fn categorical_t<T: RealNumber + serde::Serialize>(c: &mut Case) {
+fn categorical_t<T: SNum>(c: &mut Case) {
     let wd = width::<T>();
     c.bucket(&format!("width:{}", wd));
     let lab = draw_labels(c, true, 1);
@@ -1170,6 +1173,7 @@ fn categorical_t<T: RealNumber + serde::Serialize>(c: &mut Case) {
         let tp = fv(&tp);
         c.check("categorical.predictor-trait=predict", tp == preds, &sg, || format!("api::Predictor::predict returned {:?}, the inherent predict {:?}", tp, preds));
     }
+    sequence_checks(c, "categorical", &sg, &model, &qd, &preds, |m, q| m.predict(q));
     if !stats_valid {
         c.bucket("map:skipped(non-finite reported statistics)");
         return;
